@@ -10,7 +10,11 @@ SPECIALS = ["$(touch canary)", "`touch canary`", "; touch canary", "a;touch cana
             # (round 12: C08-E doubled a backslash only in front of \ " $ ` - and forgot the line break: backslash + LF inside
             # double quotes is a line continuation, both characters vanish)
             "a\\\nb", "\\\n", "\\\nz", "a\\\n", "a\\\\\nb", "tar \\\n  --x \\\n  src", "\\$x", "\\`", "\\\"", "\\!", "\\ ", "\\\t", "$\\", "\\a", "\\'",
-            "\\$(touch canary)", "\\\\$HOME"]
+            "\\$(touch canary)", "\\\\$HOME",
+            # text that looks like SOURCE syntax of the language itself: comment delimiters, a line comment, quotes, keywords (round 16:
+            # C08-I, block comments blanked by a pre-pass over the raw source that knows nothing about string literals)
+            "src/*.c lib/*/x", "int x; /* counter */ x = 1;", "/* mid */", "/*", "*/", "/**/", "*/ x /*", "a // b", "// c", "/* \" */", "/*/",
+            "import \"x\"", "func f() {", "}"]
 
 
 def go_quote(s):
